@@ -81,8 +81,10 @@ def _exe(ctx):
 
 def _run(exe, st, nmsg, chunks):
     hexs = ''.join('%02x' % (int(b) & 255) for b in st)
-    r = sh([exe, hexs or '-', str(nmsg)] + [str(int(k)) for k in chunks], env=dict(os.environ, ASAN_OPTIONS='detect_leaks=0'))
-    out = r.stdout.strip()
+    import subprocess
+    r = subprocess.run([exe, hexs or '-', str(nmsg)] + [str(int(k)) for k in chunks], stdout=subprocess.PIPE, stderr=subprocess.STDOUT, text=True, errors='replace',
+                       env=dict(os.environ, ASAN_OPTIONS='detect_leaks=0'))          # (exception texts echo raw stream bytes)
+    out = ''.join(ch if 32 <= ord(ch) < 127 or ch == '\n' else '.' for ch in r.stdout.strip())
     m = re.search(r'ERROR: AddressSanitizer: (\S+).*?(?:WRITE|READ) of size \d+', out, re.S)
     tail = ' | '.join(l for l in out.splitlines() if l.startswith(('read#', '  VIOLATED', 'VIOLATED', 'ok')))[-500:]
     if not tail: tail = out[-300:].replace('\n', ' | ')
